@@ -93,7 +93,7 @@ func c47TextFn(q *gen.R) gen.TextFn {
 
 func genC47(seed int64, tier string, emit func(run.Case)) {
 	r := gen.New(seed)
-	n := tierN(tier, 260, 12000)
+	n := tierN(tier, 260, 8000)
 	themes := c3rThemeIDs(false)
 	for i := 0; i < n; i++ {
 		q := r.Sub(i)
